@@ -1,5 +1,6 @@
 import Urandom.Model.Block
 import Urandom.Generated.EffectBlock
+import Urandom.Lemmas.EffectBlockFill
 /-!
 # C03 for `BlockRngImpl::next_u32` / `next_u64` as translated from the source
 
@@ -92,5 +93,68 @@ theorem next_u64_translated (C : Core κ β) (s : BS κ β) (h : s.index < 2 ^ 3
       simp only [BitVec.toNat_setWidth]
       simp_all
       omega
+
+/-- **`BlockRngImpl::fill_bytes` as translated is the model's `fill`, for every length below 2^64 and every value of the index field**: no
+slice operation is out of bounds, no loop diverges, the copies go to consecutive offsets of the destination starting at 0, and the elements
+written, the core, the block and the index field afterwards are the model's. -/
+theorem fill_bytes_translated (C : Core κ β) (s : BS κ β) (dflt : Nat → β) (L : BitVec 64) (h : s.index < 2 ^ 32) :
+    (Effect.block.fill_bytes (BitVec.ofNat 32 s.index) 256#64 L).2.2.1 = false ∧
+    (Effect.block.fill_bytes (BitVec.ofNat 32 s.index) 256#64 L).2.2.2 = false ∧
+    (runFill C ⟨s.core, s.buf, dflt, [], true⟩ (Effect.block.fill_bytes (BitVec.ofNat 32 s.index) 256#64 L).1).contig = true ∧
+    (runFill C ⟨s.core, s.buf, dflt, [], true⟩ (Effect.block.fill_bytes (BitVec.ofNat 32 s.index) 256#64 L).1).out = (fill C L.toNat s).1 ∧
+    (runFill C ⟨s.core, s.buf, dflt, [], true⟩ (Effect.block.fill_bytes (BitVec.ofNat 32 s.index) 256#64 L).1).core = (fill C L.toNat s).2.core ∧
+    (runFill C ⟨s.core, s.buf, dflt, [], true⟩ (Effect.block.fill_bytes (BitVec.ofNat 32 s.index) 256#64 L).1).buf = (fill C L.toNat s).2.buf ∧
+    (Effect.block.fill_bytes (BitVec.ofNat 32 s.index) 256#64 L).2.1.toNat = (fill C L.toNat s).2.index := by
+  have hL : L.toNat < 2 ^ 64 := L.isLt
+  have hidx : (BitVec.ofNat 32 s.index).toNat = s.index := by simp only [BitVec.toNat_ofNat]; omega
+  generalize hI : BitVec.ofNat 32 s.index = idx at *
+  have hfuel : L.toNat / 256 < 2 ^ 64 := by omega
+  obtain ⟨tmp', hw⟩ := runFill_wlog C (L.toNat / 256) 0#64 ⟨s.core, s.buf, dflt, [], true⟩ rfl (by simp) (by simp; omega)
+  have hdl := direct_length C (L.toNat / 256) s.core
+  unfold Effect.block.fill_bytes fill
+  simp only [while1_closed _ _ _ _ _ _ hfuel, List.nil_append]
+  generalize hq : L.toNat / 256 = q at *
+  have hr256 : L.toNat % 256 < 256 := Nat.mod_lt _ (by omega)
+  generalize hr : L.toNat % 256 = r at *
+  have hremN : (BitVec.ofNat 64 r).toNat = r := by simp only [BitVec.toNat_ofNat]; omega
+  have hoffN : (0#64 + BitVec.ofNat 64 (256 * q)).toNat = 256 * q := by
+    simp only [BitVec.toNat_add, BitVec.toNat_ofNat]; simp; omega
+  by_cases hr0 : r = 0
+  · subst hr0
+    have n0 : ¬ (BitVec.ofNat 64 0 > 0#64) := by decide
+    simp only [n0, if_false, if_true, hw]
+    simp [hidx]
+  · have p0 : BitVec.ofNat 64 r > 0#64 := by rw [gt_iff_lt, BitVec.lt_def, hremN]; simp; omega
+    have hrne : ¬ (r = 0) := hr0
+    simp only [p0, if_true, hrne, if_false]
+    have hsN := startOf_toNat idx
+    have hs0N : (0#64 + startOf idx).toNat = min s.index 256 := by
+      simp only [BitVec.toNat_add, BitVec.toNat_ofNat, hsN, hidx]; simp; omega
+    by_cases hfit : r ≤ 256 - min s.index 256
+    · have e1 : (2 : Nat) ^ 64 = (2 ^ 64 - 1) + 1 := by omega
+      rw [e1, loop1_fits _ idx _ _ _ _ _ (by rw [hremN]; omega) (by rw [hremN, hidx]; exact hfit)]
+      have hidxN : (idx + (BitVec.ofNat 64 r).setWidth 32).toNat = s.index + r := by
+        simp only [BitVec.toNat_add, BitVec.toNat_setWidth, hremN, hidx]; omega
+      simp only [runFill_append, hw]
+      simp only [runFill, List.foldl_cons, List.foldl_nil, stepFill, fillRem, hs0N, hremN, hoffN, hdl, hidxN]
+      simp [hfit, hdl]
+    · have hspill : 256 - min s.index 256 < r := by omega
+      have e2 : (2 : Nat) ^ 64 = (2 ^ 64 - 2) + 2 := by omega
+      rw [e2, loop1_spills _ idx _ _ _ _ _ (by rw [hremN]; exact hr256) (by rw [hremN, hidx]; exact hspill)]
+      have h256 : (256#64).toNat = 256 := rfl
+      have hsl : (256#64 - startOf idx).toNat = 256 - min s.index 256 := by
+        rw [BitVec.toNat_sub_of_le (by rw [BitVec.le_def, hsN, h256]; omega), hsN, h256, hidx]
+      have hle : 256#64 - startOf idx ≤ BitVec.ofNat 64 r := by rw [BitVec.le_def, hsl, hremN]; omega
+      have hrem2 : (BitVec.ofNat 64 r - (256#64 - startOf idx)).toNat = r - (256 - min s.index 256) := by
+        rw [BitVec.toNat_sub_of_le hle, hsl, hremN]
+      have hs00 : (0#64 + startOf 0#32).toNat = 0 := by decide
+      have hoff2 : (0#64 + BitVec.ofNat 64 (256 * q) + (256#64 - startOf idx)).toNat = 256 * q + (256 - min s.index 256) := by
+        rw [BitVec.toNat_add, hoffN, hsl]; omega
+      have hidx2 : (0#32 + (BitVec.ofNat 64 r - (256#64 - startOf idx)).setWidth 32).toNat = r - (256 - min s.index 256) := by
+        simp only [BitVec.toNat_add, BitVec.toNat_setWidth, hrem2]; simp; omega
+      simp only [runFill_append, hw]
+      simp only [runFill, List.foldl_cons, List.foldl_nil, stepFill, fillRem, refill, hs0N, hs00, hsl, hrem2, hoffN, hoff2, hidx2]
+      simp [hfit, hdl, take]
+
 
 end Urandom.C03
